@@ -3,6 +3,7 @@ single-call encoders never run out of space at the bound."""
 import json, os, struct
 import vlib
 import c02lib as L
+import kernels_stage
 
 META = {
     "category": "proof",
@@ -1011,8 +1012,10 @@ def run(ctx):
     ok, log = gen_stage()
     if not ok:
         ctx.obligation_broken("stage G: Gen/C02.lean cannot be regenerated from /repo", log)
+    # G (scalar kernels translated from the clang AST: Gen/Kernels.lean + Gen/KernelsGrid.lean; bridged in Props/Kernels.lean)
+    kmods = kernels_stage.run_stage(ctx)
     # P
-    p_ok = ctx.lean_stage(["XzVerif.Props.C02"], exes=["xzm_c02"]) if ok else False
+    p_ok = ctx.lean_stage(["XzVerif.Props.C02"] + kmods, exes=["xzm_c02"]) if ok else False
     mexe = vlib.model_exe("xzm_c02")
     model_ok = os.path.exists(mexe)
     if model_ok and not p_ok:
